@@ -692,3 +692,107 @@ for fp in ("all", "labeled", "unlabeled"):
         UNITS[f"precompute.{fp}.{pp}"] = unit_precompute(fp, pp)
 for mth in ("predict", "predict_proba", "predict_freq"):
     UNITS[f"speedup.{mth}"] = unit_speedup_predict(mth)
+
+
+# ------------------------------------------------------------------------------------------ __init__ (establishes what the other units assume)
+def unit_init(fitted, set_base, speedup):
+    """IndexClassifierWrapper.__init__: the state the fit / partial_fit / precompute / predict units start from.
+      * the caller's classifier is never written to and never stored as the working model: clf_ (if the classifier is fitted already, or for the
+        kernel speed-up) is a FRESH object (deepcopy / clone), base_clf_ a fresh copy of that copy; 'precomputed' is set on the clone only
+      * set_base_clf=True with an unfitted classifier raises NotFittedError
+      * use_partial_fit <=> the classifier has partial_fit and ignore_partial_fit is False; enforce_unique_samples becomes 'check_unique' / False
+      * the kernel cache starts as an N x N matrix that is NaN everywhere (so the cache invariant 'NaN or KER(i, j)' holds initially)
+      * X, y, sample_weight are the caller's arrays (validated), missing_label_ = missing_label"""
+    h = {}
+
+    def lib():
+        L = index_lib()
+
+        @L.fn("check_missing_label", "check_equal_missing_label", "check_type", "check_consistent_length")
+        def _noop(E, st, args, kw, node):
+            return None
+
+        @L.fn("np.issubdtype")
+        def _isd(E, st, args, kw, node):
+            return True          # the sentinel is compatible with the dtype of y (otherwise __init__ raises TypeError)
+
+        @L.fn("clone")
+        def _clone(E, st, args, kw, node):
+            od = st.get(args[0])
+            r = st.alloc(ObjData(od.cls, {k: v for k, v in od.fields.items() if not k.endswith("_") or k.startswith("__")}))
+            h.setdefault("clones", []).append(r)
+            return r
+        return L
+
+    def setup(E, st):
+        h.clear()
+        N, d = z3.Int("N"), z3.Int("d")
+        st.assume(N >= 1, d >= 1)
+        X = st.alloc(ArrData((N, d), fresh_sel("X", "o", 2), "o"))
+        y = st.alloc(ArrData((N,), fresh_sel("y", "o"), "o"))
+        cls = "ParzenWindowClassifier" if speedup else "__estimator__"
+        cf = {"__open__": False, "__isinstance__": ("SkactivemlClassifier",) + (("ParzenWindowClassifier",) if speedup else ()),
+              "missing_label": Opaque("missing_label"), "metric": Opaque("metric"), "metric_dict": None}
+        if fitted:
+            cf["classes_"] = Opaque("classes_")
+        has_pf = z3.Bool("clf_has_partial_fit")
+        cf["__hasattr__partial_fit"] = has_pf
+        clf = st.alloc(ObjData(cls, cf))
+        selfo = st.alloc(ObjData(CLS, {}))
+        ipf, eus = z3.Bool("ignore_partial_fit"), z3.Bool("enforce_unique_samples")
+        h.update(N=N, X=X, y=y, clf=clf, self=selfo, clf_fields=dict(cf), has_pf=has_pf, ipf=ipf, eus=eus)
+        return {"args": [selfo, clf, X, y], "kwargs": {"sample_weight": None, "set_base_clf": set_base, "ignore_partial_fit": ipf,
+                                                        "enforce_unique_samples": eus, "use_speed_up": speedup, "missing_label": Opaque("missing_label")}}
+
+    def post(E, ctx, outs):
+        rets, rs = returns(outs), raises(outs)
+        if set_base and not fitted:
+            E.oblige("C19.init.unfitted_base_is_rejected", [], z3.BoolVal(bool(rs) and not rets and all("NotFittedError" in str(o.value) for o in rs)))
+            return
+        if not rets:
+            E.oblige("reaches.return", [], z3.BoolVal(False))
+        N = h["N"]
+        for o in rets:
+            st = o.state
+            f = st.get(h["self"]).fields
+            cur = st.get(h["clf"]).fields
+            E.oblige("C19.init.callers_classifier_not_written", st, z3.BoolVal(
+                not any(ev[0] == "setattr" and ev[1] == h["clf"].id for ev in st.events) and
+                all(cur.get(k) is v or (is_z3(v) and is_z3(cur.get(k)) and z3.eq(v, cur.get(k))) or cur.get(k) == v for k, v in h["clf_fields"].items() if not k.startswith("__"))))
+            c_ = f.get("clf_")
+            if fitted or speedup:
+                E.oblige("C19.init.clf__is_a_fresh_object", st, z3.BoolVal(isinstance(c_, Ref) and c_.id != h["clf"].id))
+            else:
+                E.oblige("C19.init.no_working_model_before_the_first_fit", st, z3.BoolVal(c_ is None))
+            if set_base:
+                b_ = f.get("base_clf_")
+                E.oblige("C19.init.base_clf__is_a_fresh_copy", st, z3.BoolVal(isinstance(b_, Ref) and isinstance(c_, Ref) and b_.id not in (c_.id, h["clf"].id)))
+            else:
+                E.oblige("C19.init.no_base_model", st, z3.BoolVal(f.get("base_clf_") is None))
+            E.oblige("C19.init.data_are_the_callers_arrays", st, z3.BoolVal(
+                isinstance(f.get("X"), Ref) and f["X"].id == h["X"].id and isinstance(f.get("y"), Ref) and f["y"].id == h["y"].id and f.get("sample_weight") is None))
+            upf = f.get("use_partial_fit")
+            E.oblige("C19.init.use_partial_fit_iff_available_and_not_ignored", st,
+                     z3.BoolVal(False) if upf is None else z3bool(upf) == z3.And(h["has_pf"], z3.Not(h["ipf"])))
+            eu = f.get("enforce_unique_samples")
+            E.oblige("C19.init.enforce_unique_samples_is_check_unique_or_False", st, z3.BoolVal(eu in ("check_unique", False)))
+            if speedup:
+                K = st.get(f["pwc_K_"]) if isinstance(f.get("pwc_K_"), Ref) else None
+                ok = isinstance(K, ArrData) and K.ndim == 2
+                E.oblige("C19.init.kernel_cache_exists", st, z3.BoolVal(bool(ok)))
+                if ok:
+                    i, j = z3.Ints("ki kj")
+                    E.oblige("C19.init.kernel_cache_is_N_x_N_and_all_NaN", st, z3.And(to_int(K.shape[0]) == N, to_int(K.shape[1]) == N,
+                             z3.ForAll([i, j], z3.Implies(z3.And(0 <= i, i < N, 0 <= j, j < N), to_real(K.sel(i, j))[0]))))
+                    E.oblige("C19.init.cache_invariant_holds", st, k_inv(K, N))
+                cd = st.get(c_) if isinstance(c_, Ref) else None
+                E.oblige("C19.init.precomputed_metric_is_set_on_the_clone_only", st, z3.BoolVal(
+                    isinstance(cd, ObjData) and cd.fields.get("metric") == "precomputed" and cur.get("metric") is h["clf_fields"]["metric"]))
+    tag = f"{'fitted' if fitted else 'unfitted'}.{'set_base' if set_base else 'no_base'}.{'speedup' if speedup else 'plain'}"
+    return se_unit(f"index_wrapper.__init__.{tag}", FU, f"{CLS}.__init__", CLS, setup, post, lib_factory=lib)
+
+
+for _f in (True, False):
+    for _b in (True, False):
+        for _s in (True, False):
+            UNITS[f"__init__.{'fitted' if _f else 'unfitted'}.{'set_base' if _b else 'no_base'}.{'speedup' if _s else 'plain'}"] = unit_init(_f, _b, _s)
